@@ -5,29 +5,45 @@ ENTRY = dict(
         title="Public functions neither modify their inputs nor share state between results",
         prop_file="Properties/C16.v",
         corr_files=["Corr/C16Corr.v"],
-        theorems=["c16_frame", "c16_inplace_only_arg", "c16_fresh",
-                  "c16_fresh_between_results", "c16_edits_leave_inputs", "c16_later_calls_partial",
-                  "c16_confined", "c16_results_share_only_arguments",
+        theorems=["c16_frame", "c16_inplace_only_arg",
+                  "c16_fresh_current", "c16_fresh_current_disjoint", "c16_confined", "c16_results_share_only_arguments",
+                  "c16_edits_confined",
+                  "c16_result_reach_new_repaired", "c16_fresh_repaired", "c16_fresh_between_results_repaired",
+                  "c16_edits_leave_inputs_repaired", "c16_later_calls_repaired_partial",
                   "c16_reach_sound", "c16_reach_complete",
-                  "c16_refuted_F6", "c16_refuted_F10", "c16_refuted_F11", "c16_facts"],
+                  "c16_refuted_F6", "c16_refuted_F10", "c16_refuted_F11", "c16_refuted_F19", "c16_facts"],
         allowed_axioms=[],
         facts=["c16_copy_sites"],
         harness="c16",
         level="proof",
-        level_text="Partial proof. Unbounded theorems (all heaps, all argument addresses, all circuit / basis / sample-list sizes) about an executable "
-                   "object-heap model of the copy discipline of the nine public entry points (allocations, field writes, references stored "
-                   "in results): every call that is not in place only appends to the heap (frame, proved for the model of the current tree "
-                   "and for the repaired one); an in-place call writes only its circuit argument and, for decompose_qpd_instructions, that "
-                   "circuit's own instruction objects; in the property-satisfying model every object reachable from a result is new, so "
-                   "results share nothing with arguments or earlier results and arbitrary edits of a result leave all older objects as "
-                   "they were; in EVERY mode (also the model of the current tree) whatever is reachable from a result is new or was reachable "
-                   "from the arguments of that call (c16_confined), so no other pre-existing state can leak into results. "
-                   "The sharing classes F6, F10, F11 of the current tree are refuted on the model of the current "
-                   "behaviour. Closed under the global context. Partial: what Qiskit's containers do inside copy/compose/append is an "
-                   "oracle (O-copy), observed and monitored, not proved; the model is compared with the real id()-level alias relation "
-                   "on ~300 generated cases per quick run.",
+        level_text="Partial proof. Unbounded theorems (all heaps, argument addresses, circuit / basis / sample-list sizes) about an executable "
+                   "object-heap model of the copy discipline of the ten public entry points (allocations, field writes, references stored in "
+                   "results). ABOUT THE CODE AS IT IS (every mode of the model, in particular mode Current = the tree's copy discipline): "
+                   "a call that is not in place only appends to the heap (c16_frame); an in-place call writes only its circuit argument and, "
+                   "for decompose_qpd_instructions, that circuit's instruction objects (c16_inplace_only_arg; those objects may also sit in "
+                   "other circuits, e.g. after cut_wires); whatever is reachable from a result is new or was reachable from the arguments "
+                   "(c16_confined, c16_results_share_only_arguments), so edits of a result can only hit new or argument-reachable objects "
+                   "(c16_edits_confined); on CLEAN inputs (boolean `clean`: no basis-carrying instruction in the argument circuits, "
+                   "cut_wires circuits of native instructions and CutWire markers only) everything reachable from a result is new "
+                   "(c16_fresh_current) - this does NOT cover decompose/generate on circuits with placeholders. ABOUT THE REPAIRED MODEL ONLY "
+                   "(mode Repaired, not the tree: F6/F10/F11/F19 are unrepaired): everything reachable from a result is new for every input, "
+                   "results share nothing with arguments or earlier results, edits of a result leave all older objects unchanged "
+                   "(the four *_repaired theorems; the later-calls one is partial: same argument graph, not yet same outcome). The sharing "
+                   "classes F6, F10, F11, F19 are refuted on the model of the current behaviour. Closed under the global context. What "
+                   "Qiskit's containers do inside copy/compose/append is an oracle (O-copy), monitored, not proved; the model is compared "
+                   "with the real id()-level alias relation on ~580 generated cases per quick run.",
         level_note=STD_NOTE + "No axioms.",
         assumptions=[
+            "input preconditions of the model (`run` is total, it has no Refused/Crashed outcome): gate ids are instruction indices in "
+            "range and name non-placeholder gates; after the map ids are assigned every basis-carrying instruction of a circuit given to "
+            "decompose_qpd_instructions has a selected map (where Python raises ValueError the model silently drops the instruction; "
+            "out-of-range ids allocate a basis where Python crashes). The harness only sends accepted calls; refused calls are counted",
+            "covered by correspondence only, the model being a single allocation there: reconstruct_expectation_values, "
+            "expand_observables, the observables argument of generate_cutting_experiments; find_cuts' OptimizationParameters / "
+            "DeviceConstraints objects are not in the model (snapshotted by the harness); instruction PARAMETERS and definition caches are "
+            "not in the model (F20 / F21 routed by predicate)",
+            "an edit list (theorems about edits) overwrites existing objects at addresses reachable from the result when it was returned: "
+            "no allocation, no chain through a reference planted by an earlier edit",
             "Model/Heap.v is a hand-written model of which objects the public functions allocate, which fields they write and which "
             "references they store; tied to /repo by the C16 correspondence (argument snapshots, real alias relation by id() traversal and "
             "np.shares_memory, destructive edits of results) and by the extracted list of every .copy()/inplace site (c16_facts)",
